@@ -19,8 +19,14 @@ written with. Four target formats x options x in-memory / file-backed (.pkl .ts 
 database (nothing read yet / selection retrieved and stored / one selected series stored) x target named by absolute path / bare
 file name in the working directory / relative path; "differing processed time arrays were written"; "target modified although
 export raised"; "existing file overwritten although exist_ok=False"; `is_common_time` on lattice series.
+Audit additions: the model definitions `encodeRows`/`decodeRows`/`encodePkl`/`decodePkl`/`isCommonTime` are executed by the driver
+(`ex.rows`, `ex.pkl`, `ex.iscommon`) and compared with `write_dat_data`/`read_dat_data`, `pickle_format.write_data`/`read_pickle_names`/
+`read_data`, `TsDB.is_common_time`; round trips over spellings of the call and of the options, array types, non-finite data, extreme
+magnitudes, real pre-existing exports, several exports in a row from one database object, the GUI's entry point
+`qats.app.funcs.export_to_file`; every exception of the implementation inside the harness becomes a failing clause.
 Known findings reported through matchers (ids below): F19 (.dat name like time*), F19b (.pkl name 'Time'), F30 (fewer than two
-processed samples), F31 ('.ts' elsewhere in the target path), F32 (resample given as a list + .ts).  The model also encodes
+processed samples), F31 ('.ts' elsewhere in the target path), F32 (resample given as a list + .ts), F-C07-existok (exist_ok given as 0 / numpy.bool_(False): the existing file is overwritten; found by the
+audit, needs an entry in known_findings.json or the repair `not exist_ok`).  The model also encodes
 that `_check_time_arrays` raises TypeError for non-overlapping series (robustness defect, the export is still refused).
 """
 import contextlib
@@ -32,6 +38,7 @@ import os
 import shutil
 import struct
 import tempfile
+import traceback
 from collections import OrderedDict
 from fractions import Fraction
 
@@ -48,6 +55,9 @@ F30 = "F30"      # processed arrays with fewer than two samples are written but 
                  # .h5 raises after truncating the target)
 F31 = "F31"      # .ts target whose path contains '.ts' elsewhere: load looks for the wrong key file (str.replace)
 F32 = "F32"      # resample given as a list + .ts target: RuntimeError after the target was truncated
+FXOK = "F-C07-existok"     # exist_ok given as 0 / numpy.bool_(False): `exist_ok is False` does not hold, the existing file is overwritten
+                 # (reported by the audit of this check; set EXIST_OK_SPELLINGS = False to leave the spelling out of the search)
+EXIST_OK_SPELLINGS = True
 
 RULE = ("correspondence: seeded dyadic databases of 1-4 series in the families identical / common lattice / off lattice / same span "
         "non-uniform / different step / disjoint, with and without dtg_ref, x twin (inside, on, beyond the common window) x resample "
@@ -58,7 +68,17 @@ RULE = ("correspondence: seeded dyadic databases of 1-4 series in the families i
         "one, list in file order / reversed / shuffled, wildcard), exporting database fresh / selection stored / one series stored, "
         "target as absolute path / bare file name in the working directory / relative path, options (window, resample step/array, "
         "low/high/band-pass, taper, smoothing), pre-existing targets with overwriting allowed or not; direct-access records "
-        "requested by index in any order (codec); non-trivial = more than one series or any option; distinct by full case")
+        "requested by index in any order (codec); ascii rows / pickled frames of exactly printable values against encodeRows / "
+        "decodeRows / encodePkl / decodePkl, isCommonTime against is_common_time. Audit classes in the round trips: the call spelled "
+        "differently (names positional / tuple, all arguments positional, qats.app.funcs.export_to_file, window as list / ndarray / ints, "
+        "step as numpy float32/64, integer time array, filterargs as list, options passed as None, options that do nothing, truth values "
+        "as numpy bool / int, ascii delimiters of blanks, targets with dots / blanks / './' / '..', reload by absolute path / load([..])), "
+        "series built from int64 / float32 / strided / shared arrays, nan and +-inf in the data, data in units of 2^+-100 (2^+-200 where "
+        "representable), time offset 1e5, series of two samples, names resembling keywords / comments / numbers / differing in case, "
+        "an existing target that is a larger real export, up to three exports in a row from one database object (other format / options "
+        "/ selection / target, after refusals, the same option objects again); references: per-series retrieval from a second database "
+        "and, for in-memory sources without options other than a window, the arrays the series were built from; "
+        "non-trivial = more than one series or any option; distinct by full case")
 
 EXTS = [".ts", ".dat", ".h5", ".pkl"]
 
@@ -115,6 +135,111 @@ def kw_of(kwj):
     return kw
 
 
+def spell_bool(v, how):
+    """the same truth value as a Python bool / numpy bool / int"""
+    if how == "np":
+        return np.bool_(bool(v))
+    if how == "int":
+        return int(bool(v))
+    return bool(v)
+
+
+def kw_spelled(case, span=None):
+    """the options of `kw_of(case['kw'])` as the caller of this case spells them (case['spell']): the window as tuple / list / ndarray /
+    tuple of ints, the step as float / numpy.float64 / numpy.float32, the time array as float or integer ndarray / list, filterargs as
+    tuple / list, options passed explicitly as None, options that are given but do nothing (taperfrac=0.0, window_len=0 or 1, a window
+    that contains every series). A spelling is only used where it denotes exactly the same value."""
+    sp = case.get("spell") or {}
+    kwj = case["kw"]
+    kw = {}
+    tw = kwj.get("twin")
+    if tw is not None:
+        a, b = float(tw[0]), float(tw[1])
+        how = sp.get("twin", "tuple")
+        if how == "list":
+            kw["twin"] = [a, b]
+        elif how == "nd":
+            kw["twin"] = np.array([a, b])
+        elif how == "int" and a == int(a) and b == int(b):
+            kw["twin"] = (int(a), int(b))
+        else:
+            kw["twin"] = (a, b)
+    r = kwj.get("resample")
+    if r is not None:
+        how = sp.get("resample")
+        if r[0] == "step":
+            v = float(r[1])
+            if how == "f64":
+                kw["resample"] = np.float64(v)
+            elif how == "f32" and float(np.float32(v)) == v:
+                kw["resample"] = np.float32(v)
+            else:
+                kw["resample"] = v
+        elif r[0] == "arr":
+            vals = [float(v) for v in r[1]]
+            if how == "intarr" and all(v == int(v) for v in vals):
+                kw["resample"] = np.array([int(v) for v in vals])
+            else:
+                kw["resample"] = np.array(vals)
+        else:
+            kw["resample"] = [float(v) for v in r[1]]
+    if kwj.get("filterargs") is not None:
+        kw["filterargs"] = list(kwj["filterargs"]) if sp.get("filterargs") == "list" else tuple(kwj["filterargs"])
+    if kwj.get("taperfrac") is not None:
+        kw["taperfrac"] = float(kwj["taperfrac"])
+    if kwj.get("window_len") is not None:
+        kw["window_len"] = int(kwj["window_len"])
+    for k in sp.get("none", []):
+        if k in ("twin", "resample", "filterargs", "taperfrac", "window_len") and k not in kw:
+            kw[k] = None
+    for z in sp.get("noop", []):
+        if z == "taper0" and kw.get("taperfrac") is None:
+            kw["taperfrac"] = 0.0
+        elif z == "wl1" and kw.get("window_len") is None:
+            kw["window_len"] = 1
+        elif z == "wl0" and kw.get("window_len") is None:
+            kw["window_len"] = 0
+        elif z == "twin_all" and kw.get("twin") is None and span is not None and (r is None or r[0] == "step"):
+            kw["twin"] = (float(span[0]) - 1.0, float(span[1]) + 1.0)
+    return kw
+
+
+class BuildRefused(Exception):
+    """the database of a case cannot be built (the same key twice in memory)"""
+
+
+def mem_arrays(case):
+    """the arrays an in-memory case is built from, as float64 (time, data) per series: data cast to the case's dtype, non-finite
+    values put where case['nonfinite'] says"""
+    dt = case.get("dtype") or "f8"
+    out = []
+    for i, s in enumerate(case["series"]):
+        t = np.array(s["t"], dtype=float)
+        x = np.array(s["x"], dtype=float)
+        for si, pos, what in case.get("nonfinite") or []:
+            if si == i and len(x):
+                x[pos % len(x)] = dict(nan=np.nan, inf=np.inf, ninf=-np.inf)[what]
+        if dt == "i8":
+            x = np.round(x)
+        elif dt == "f4":
+            x = x.astype(np.float32).astype(float)
+        out.append((t, x))
+    return out
+
+
+def typed(a, dt, is_time):
+    """`a` (float64) as the array object a caller would hold: int64 (integer-valued arrays), float32 (data), a strided view"""
+    if dt == "i8" and np.all(np.isfinite(a)) and np.all(a == np.round(a)) and np.all(np.abs(a) < 2.0 ** 52):
+        return a.astype(np.int64)
+    if dt == "f4" and not is_time:
+        return a.astype(np.float32)
+    if dt == "view":
+        base = np.zeros(2 * len(a) + 1)
+        base[1::2] = a
+        return base[1::2]
+    return a
+
+
 def write_pickle(path, names, t, cols):
     import pandas as pd
     os.makedirs(os.path.dirname(path), exist_ok=True)
@@ -132,8 +257,20 @@ def build_db(case, root, write=True):
     from qats.io.sima_h5 import write_data as write_h5
     db = TsDB()
     if case["source"] == "mem":
-        for s in case["series"]:
-            db.add(TimeSeries(s["name"], np.array(s["t"], dtype=float), np.array(s["x"], dtype=float), dtg_ref=dtg_of(s.get("dtg"))))
+        dt = case.get("dtype") or "f8"
+        shared_t = None
+        for s, (t, x) in zip(case["series"], mem_arrays(case)):
+            tt = typed(t, dt, True)
+            if dt == "shared":
+                # one ndarray object is the time array of every series that has these times
+                if shared_t is not None and shared_t.shape == t.shape and np.array_equal(shared_t, t):
+                    tt = shared_t
+                else:
+                    shared_t = tt
+            try:
+                db.add(TimeSeries(s["name"], tt, typed(x, dt, False), dtg_ref=dtg_of(s.get("dtg"))))
+            except KeyError:
+                raise BuildRefused(s["name"])
         return db
     files = OrderedDict()
     for s in case["series"]:
@@ -169,8 +306,8 @@ def gen_times(rng, nser, family, exact=True, nmax=12):
     """time arrays (Fractions when exact) of `nser` series of the given family"""
     F = Fraction if exact else (lambda a, b=1: a / b)
     h = F(1, rng.choice([1, 2, 4])) * rng.choice([1, 2]) if exact else rng.choice([0.1, 0.25, 0.01, 1.0, 0.5, 0.05])
-    o = F(rng.randint(-8, 8), 2) if exact else rng.choice([0.0, 0.0, 10.0, -3.5, 100.0, 1000.0])
-    n = rng.randint(3, nmax)
+    o = F(rng.randint(-8, 8), 2) if exact else rng.choice([0.0, 0.0, 10.0, -3.5, 100.0, 1000.0] + ([1.0e5] if h >= 0.1 else []))
+    n = rng.randint(2, nmax)
     base = [o + i * h for i in range(n)]
     out = []
     for j in range(nser):
@@ -563,7 +700,11 @@ def corr_check(chk, drv, rng, N):
                                             " ; ".join(ser_line(d, t) for d, t in zip(dtgs, times))))
         meta.append((times, dtgs, twin, res, fam))
     outs = drv.run(lines)
-    for (times, dtgs, twin, res, fam), out in zip(meta, outs):
+    # the model's `isCommonTime` itself (the definition the counterexample theorems are about) on every case without resampling / dtg
+    ic_idx = [i for i, (times, dtgs, twin, res, fam) in enumerate(meta) if res is None and all(d is None for d in dtgs)]
+    ic_outs = dict(zip(ic_idx, drv.run(["ex.iscommon %s ; %s" % (opts_line(meta[i][2], None).split()[0],
+                                                                  " ; ".join(ser_line(None, t) for t in meta[i][0])) for i in ic_idx])))
+    for ci, ((times, dtgs, twin, res, fam), out) in enumerate(zip(meta, outs)):
         cont = OrderedDict()
         for i, (t, d) in enumerate(zip(times, dtgs)):
             tf = np.array([float(v) for v in t])
@@ -602,16 +743,30 @@ def corr_check(chk, drv, rng, N):
             chk.sample(dict(stream="check", input=inp, reply=im))
         # the public face of the same decision; partial theorem, measured side: on a common lattice (or identical arrays) a
         # positive answer means that the (windowed) time arrays are equal
-        if res is None and all(d is None for d in dtgs) and im.startswith("ok"):
-            db = TsDB()
-            for i, t in enumerate(times):
-                tf = np.array([float(v) for v in t])
-                db.add(TimeSeries("s%d" % i, tf, tf * 0.0))
-            ic = db.is_common_time(twin=kw.get("twin"))
+        if ci in ic_outs:
             chk.count("is_common_time")
-            if ("common=1" in out) != bool(ic):
-                chk.disagree("is_common_time", inp, out, bool(ic))
-            for oracle, expected, observed in clause_is_common(inp)[1]:
+            try:
+                db = TsDB()
+                for i, t in enumerate(times):
+                    tf = np.array([float(v) for v in t])
+                    db.add(TimeSeries("s%d" % i, tf, tf * 0.0))
+                # (the window as a tuple or a list, the names absent or given)
+                tw = kw.get("twin")
+                if tw is not None and rng.random() < 0.3:
+                    tw = list(tw)
+                ic = db.is_common_time(twin=tw) if rng.random() < 0.7 else db.is_common_time(names=["s%d" % i for i in range(len(times))], twin=tw)
+                imc = "ok %d" % bool(ic)
+            except Exception:
+                imc = "err"
+            if ic_outs[ci].strip() != imc:
+                chk.disagree("is_common_time", inp, ic_outs[ci], imc)
+            if im.startswith("ok") and imc != "err" and ("common=1" in out) != (imc == "ok 1"):
+                chk.disagree("is_common_time", inp, out, imc)
+            try:
+                cl = clause_is_common(inp)[1]
+            except Exception as e:
+                cl = [] if imc == "err" else [("is_common_time answers (no exception) for overlapping series", "True / False", repr(e)[:160])]
+            for oracle, expected, observed in cl:
                 chk.fail(oracle, inp, expected, observed)
 
 
@@ -765,11 +920,12 @@ def corr_codec(chk, drv, rng, N, root):
     from qats.io.other import write_dat_data, read_dat_names
     from qats.io.sima_h5 import write_data as write_h5, read_names as read_h5_names, read_data as read_h5_data
     alpha = ["a", "b", "Time", "time", "Timer", "END", "end", " lead", "trail ", "**c", "'q", "x y", "T [kN]", "*a", "a'b", "t\tb", "En d",
-             "e**", "tIME", "m/s", "_"]
+             "e**", "tIME", "m/s", "_", "End1", "ENDING", "#c", "Gr\u00f6\u00dfe", "a_very_long_series_name_123", "50%", "1"]
     lines, meta = [], []
-    for ci in range(N):
-        k = rng.choice([1, 2, 3])
-        names = rng.sample(alpha, k)
+
+    def one(ci, names, delim):
+        L, M = [], []
+        k = len(names)
         # (1) key file: text written by write_ts_data vs encodeKey; read_ts_names vs decodeKey
         n = rng.choice([2, 3, 5])
         t = np.arange(n, dtype=float) * 0.5
@@ -777,37 +933,37 @@ def corr_codec(chk, drv, rng, N, root):
         p = os.path.join(root, "cd%05d.ts" % ci)
         write_ts_data(p, t, OrderedDict((nm, (t, c)) for nm, c in zip(names, cols)))
         text = open(p[:-3] + ".key", newline="").read()
-        lines.append("ex.keyenc " + hxlist(names))
-        meta.append(("keyenc", names, text))
-        lines.append("ex.keydec " + hx(text))
-        meta.append(("keydec", names, read_ts_names(p[:-3] + ".key")))
+        L.append("ex.keyenc " + hxlist(names))
+        M.append(("keyenc", names, text))
+        L.append("ex.keydec " + hx(text))
+        M.append(("keydec", names, read_ts_names(p[:-3] + ".key")))
         # (2) words of the binary file
         raw = open(p, "rb").read()
         nw = len(raw) // 4
         words = ["i%d" % v for v in struct.unpack("<%di" % n, raw[:4 * n])] + ["v" + rat(v) for v in struct.unpack("<%df" % (nw - n), raw[4 * n:])]
-        lines.append("ex.tsenc " + " | ".join(" ".join(rat(v) for v in arr) for arr in [t] + cols))
-        meta.append(("tsenc", names, " ".join(words)))
-        lines.append("ex.tsdec " + " ".join(words))
-        meta.append(("tsdec", names, read_ts_data(p)))
+        L.append("ex.tsenc " + " | ".join(" ".join(rat(v) for v in arr) for arr in [t] + cols))
+        M.append(("tsenc", names, " ".join(words)))
+        L.append("ex.tsdec " + " ".join(words))
+        M.append(("tsdec", names, read_ts_data(p)))
         # ... and records requested by index, in any order (row i of the reply is the i-th requested record)
         req = [0] + rng.sample(range(1, k + 1), rng.randint(1, k))
         if rng.random() < 0.3:
             rng.shuffle(req)
-        lines.append("ex.tsdec " + " ".join(words))
-        meta.append(("tsdec-ind", names, (req, read_ts_data(p, ind=list(req)))))
+        L.append("ex.tsdec " + " ".join(words))
+        M.append(("tsdec-ind", names, (req, read_ts_data(p, ind=list(req)))))
         # (3) .dat header
         dnames = [nm for nm in names if "\t" not in nm or True]
         p2 = os.path.join(root, "cd%05d.dat" % ci)
-        write_dat_data(p2, t, OrderedDict((nm, (t, c)) for nm, c in zip(dnames, cols)))
+        write_dat_data(p2, t, OrderedDict((nm, (t, c)) for nm, c in zip(dnames, cols)), delim=delim)
         header = open(p2).readline().rstrip("\n")
-        lines.append("ex.datenc %s %s" % (hx("\t"), hxlist(dnames)))
-        meta.append(("datenc", dnames, header))
+        L.append("ex.datenc %s %s" % (hx(delim), hxlist(dnames)))
+        M.append(("datenc", dnames, header))
         try:
             rn = read_dat_names(p2)
         except KeyError:
             rn = "err key"
-        lines.append("ex.datdec " + hx(header))
-        meta.append(("datdec", dnames, rn))
+        L.append("ex.datdec " + hx(header))
+        M.append(("datdec", dnames, rn))
         # (4) h5: names in reader order, rebuilt time arrays
         hn = [nm for nm in names if nm not in ("m/s",)] or ["a"]
         hn = list(dict.fromkeys(hn))
@@ -821,8 +977,26 @@ def corr_codec(chk, drv, rng, N, root):
         write_h5(p3, OrderedDict((nm, (np.array([float(v) for v in tt]), np.array([float(v) for v in xx]))) for nm, tt, xx in items))
         got = read_h5_names(p3)
         arrs = read_h5_data(p3, names=got)
-        lines.append("ex.h5 " + " ; ".join("%s | %s | %s" % (hx(nm), " ".join(rat(v) for v in tt), " ".join(rat(v) for v in xx)) for nm, tt, xx in items))
-        meta.append(("h5", hn, (got, arrs)))
+        L.append("ex.h5 " + " ; ".join("%s | %s | %s" % (hx(nm), " ".join(rat(v) for v in tt), " ".join(rat(v) for v in xx)) for nm, tt, xx in items))
+        M.append(("h5", hn, (got, arrs)))
+        return L, M
+    for ci in range(N):
+        names = rng.sample(alpha, rng.choice([1, 2, 3]))
+        delim = rng.choice(["\t", "\t", " ", "  ", " \t"])
+        try:
+            L, M = one(ci, names, delim)
+        except Exception as e:
+            # an exception of a writer / reader on these names: a broken tie (the model predicts none), and a failing clause when
+            # every name is representable in all four formats
+            chk.count("codec-exception")
+            inp = dict(kind="codec", codec="exception", names=names, delim=delim)
+            chk.disagree("codec", inp, "no exception", "%s: %s" % (type(e).__name__, str(e)[:160]))
+            if all(representable(nm, e2) for nm in names for e2 in EXTS):
+                chk.fail("the writers and readers of the four formats accept representable names", inp, "no exception",
+                         "%s: %s" % (type(e).__name__, str(e)[:160]))
+            continue
+        lines += L
+        meta += M
     outs = drv.run(lines)
     for (kind, names, im), out in zip(meta, outs):
         chk.count("codec-" + kind)
@@ -869,12 +1043,143 @@ def corr_codec(chk, drv, rng, N, root):
                 chk.disagree("codec-h5", inp, out, [got, [[a.tolist() for a in p] for p in arrs]])
 
 
+# ---- ascii rows and pickled frame: the model definitions `encodeRows` / `decodeRows` / `encodePkl` / `decodePkl` against the real
+# writers and readers. Values are dyadic rationals with at most 7 significant decimal digits, which `%15.7g` prints exactly (the
+# formatting function q of `roundtrip_dat_rows` is the identity on them); the pickle is exact for any float.
+def gen_exact_table(rng, nmax=12):
+    """time column and 1-4 data columns (Fractions) that `%15.7g` prints exactly: multiples of 1/16 below 1000 (at most 3 + 4 digits)"""
+    n = rng.choice([2, 2, 3, 5, rng.randint(2, nmax)])
+    k = rng.choice([1, 2, 3, 4])
+    h = Fraction(1, rng.choice([1, 2, 4, 8]))
+    o = Fraction(rng.randint(-100, 100), 2)
+    t = [o + i * h for i in range(n)]
+    special = [Fraction(0), Fraction(-1, 16), Fraction(999 * 16 + 15, 16), Fraction(-999), Fraction(1, 2), Fraction(100)]
+    cols = [[rng.choice(special) if rng.random() < 0.15 else Fraction(rng.randint(-999 * 16, 999 * 16), 16) for _ in range(n)] for _ in range(k)]
+    return t, cols
+
+
+def eval_rows(inp, root):
+    """kind 'rows': write with write_dat_data, look at the file's rows, read back with read_dat_data (all columns / the first m).
+    returns (file_rows, columns_all, columns_first_m, fails)"""
+    from qats.io.other import write_dat_data, read_dat_data, read_dat_names
+    t = np.array([fr(v) for v in inp["t"]])
+    cols = [np.array([fr(v) for v in c]) for c in inp["cols"]]
+    names = inp["names"]
+    p = os.path.join(root, "rows.dat")
+    write_dat_data(p, t, OrderedDict((nm, (t, c)) for nm, c in zip(names, cols)), delim=inp.get("delim", "\t"))
+    rows = [[float(w) for w in ln.split()] for ln in open(p).read().split("\n")[1:] if ln.strip()]
+    allc = np.atleast_2d(read_dat_data(p))
+    m = inp["m"]
+    firstm = np.atleast_2d(read_dat_data(p, ind=list(range(m))))
+    fails = []
+    want = [t] + cols
+    if read_dat_names(p) != names:
+        fails.append(("an ascii file lists the names it was written with", names, read_dat_names(p)))
+    if allc.shape != (len(want), len(t)) or not all(np.array_equal(a, b) for a, b in zip(allc, want)):
+        fails.append(("an ascii file written from values with at most 7 significant digits reads back exactly (time and every column)",
+                      [w.tolist()[:6] for w in want], [r.tolist()[:6] for r in allc]))
+    if firstm.shape != (m, len(t)) or not all(np.array_equal(a, b) for a, b in zip(firstm, want[:m])):
+        fails.append(("the first m columns of an ascii file requested by index are the first m columns written",
+                      [w.tolist()[:6] for w in want[:m]], [r.tolist()[:6] for r in firstm]))
+    return rows, allc, firstm, fails
+
+
+def eval_pkl(inp, root):
+    """kind 'pkl': write with pickle_format.write_data, read names and data back. returns (names, data, fails)"""
+    from qats.io.pickle_format import write_data, read_pickle_names, read_data
+    t = np.array([fr(v) for v in inp["t"]])
+    cols = [np.array([fr(v) for v in c]) for c in inp["cols"]]
+    names = inp["names"]
+    p = os.path.join(root, "frame.pkl")
+    write_data(p, t, OrderedDict((nm, (t, c)) for nm, c in zip(names, cols)))
+    gn = list(read_pickle_names(p))
+    gd = np.atleast_2d(read_data(p))
+    fails = []
+    if gn != names:
+        fails.append(("a pickle file lists the names it was written with (a series called Time included)", names, gn))
+    want = [t] + cols
+    if gd.shape != (len(want), len(t)) or not all(np.array_equal(a, b) for a, b in zip(gd, want)):
+        fails.append(("a pickle file reads back exactly (time and every column)", [w.tolist()[:6] for w in want], [r.tolist()[:6] for r in gd]))
+    return gn, gd, fails
+
+
+def rats_of(tok):
+    return [] if tok == "=" else [float(Fraction(v)) for v in tok.split(",")]
+
+
+def corr_rows_pkl(chk, drv, rng, N, root):
+    alpha_dat = ["a", "b", "x1", "End1", "#c", "Fx", "fx", "T[kN]", "a_very_long_series_name_123", "50%", "1", "nan", "q[1/s]"]
+    alpha_pkl = alpha_dat + ["Time", "time", "Timer", "x y", "Tension [kN]", " lead", "Gr\u00f6\u00dfe", "END"]
+    lines, meta = [], []
+    for ci in range(N):
+        t, cols = gen_exact_table(rng, nmax=rng.choice([12, 12, 40, 510]))
+        k = len(cols)
+        inp = dict(kind="rows", t=[str(v) for v in t], cols=[[str(v) for v in c] for c in cols], names=rng.sample(alpha_dat, k),
+                   delim=rng.choice(["\t", "\t", " ", "  "]), m=rng.randint(1, k + 1))
+        lines.append("ex.rows n=%d m=%d | %s" % (len(t), k + 1, " | ".join(" ".join(rat(v) for v in c) for c in [t] + cols)))
+        meta.append(("rows", inp, k + 1))
+        lines.append("ex.rows n=%d m=%d | %s" % (len(t), inp["m"], " | ".join(" ".join(rat(v) for v in c) for c in [t] + cols)))
+        meta.append(("rows-m", inp, inp["m"]))
+        t2, cols2 = gen_exact_table(rng)
+        inp2 = dict(kind="pkl", t=[str(v) for v in t2], cols=[[str(Fraction(v) / rng.choice([1, 3, 1024])) for v in c] for c in cols2],
+                    names=rng.sample(alpha_pkl, len(cols2)))
+        if rng.random() < 0.3 and "Time" not in inp2["names"]:
+            inp2["names"][rng.randrange(len(cols2))] = "Time"
+        # (values k/3 are not floats: the columns handed to the model are the floats the writer gets, as exact rationals)
+        inp2["cols"] = [[str(Fraction(fr(v))) for v in c] for c in inp2["cols"]]
+        lines.append("ex.pkl %s | %s" % (hxlist(inp2["names"]), " | ".join(" ".join(str(Fraction(v)) for v in c) for c in [inp2["t"]] + inp2["cols"])))
+        meta.append(("pkl", inp2, None))
+    outs = drv.run(lines)
+    done = set()
+    for (kind, inp, m), out in zip(meta, outs):
+        chk.count("codec-" + kind)
+        chk.nontriv(("codec", kind, repr(inp)))
+        sub = tempfile.mkdtemp(dir=root)
+        try:
+            if kind in ("rows", "rows-m"):
+                rows, allc, firstm, fails = eval_rows(inp, sub)
+                toks = dict(tok.split("=", 1) for tok in out.split()[1:]) if out.startswith("ok ") else {}
+                mrows = [rats_of(r) for r in toks.get("rows", "").split(";")] if toks else None
+                mcols = [rats_of(c) for c in toks.get("cols", "").split(";")] if toks else None
+                got = allc if kind == "rows" else firstm
+                if mrows is None or mrows != rows:
+                    chk.disagree("codec-rows(encodeRows)", inp, out[:300], [r[:6] for r in rows[:4]])
+                if mcols is None or len(mcols) != len(got) or not all(len(a) == len(b) and np.array_equal(a, b) for a, b in zip(mcols, got)):
+                    chk.disagree("codec-rows(decodeRows)", dict(inp, columns_read=m), out[:300], [r.tolist()[:6] for r in got])
+            else:
+                gn, gd, fails = eval_pkl(inp, sub)
+                parts = out.split() if out.startswith("ok ") else None
+                if parts is None or len(parts) != 4:
+                    chk.disagree("codec-pkl", inp, out[:300], [gn, [r.tolist()[:6] for r in gd]])
+                else:
+                    mn, mt, mx = unhxlist(parts[1]), rats_of(parts[2]), [rats_of(c) for c in parts[3].split(";")]
+                    if mn != gn or len(gd) != len(mx) + 1 or not np.array_equal(mt, gd[0]) or \
+                            not all(len(a) == len(b) and np.array_equal(a, b) for a, b in zip(mx, gd[1:])):
+                        chk.disagree("codec-pkl(decodePkl . encodePkl)", inp, out[:300], [gn, [r.tolist()[:6] for r in gd]])
+            if id(inp) not in done:
+                done.add(id(inp))
+                for oracle, expected, observed in fails:
+                    chk.fail(oracle, inp, expected, observed)
+        except Exception as e:
+            chk.disagree("codec-" + kind, inp, out[:200], "%s: %s" % (type(e).__name__, str(e)[:160]))
+            if id(inp) not in done:
+                done.add(id(inp))
+                chk.fail("the ascii / pickle writer and reader complete on representable names and finite values", inp, "no exception",
+                         "%s: %s" % (type(e).__name__, str(e)[:160]))
+        finally:
+            shutil.rmtree(sub, ignore_errors=True)
+
+
 # ----------------------------------------------------------------------------------------------------------------------------------
 # end-to-end oracles on the unpatched implementation
 # ----------------------------------------------------------------------------------------------------------------------------------
-SAFE_NAMES = ["a", "b", "surge", "heave_1", "Fx", "m-2.5", "acc(1)", "T[kN]", "p.q", "Moment", "X2", "z_"]
+SAFE_NAMES = ["a", "b", "surge", "heave_1", "Fx", "m-2.5", "acc(1)", "T[kN]", "p.q", "Moment", "X2", "z_",
+              # names that resemble a format keyword or a number, differ only in letter case, hold the ascii comment character, are
+              # longer than the 15-character column of the ascii header, are not ascii
+              "End1", "ENDING", "fx", "#c", "a#b", "50%", "a_very_long_series_name_123", "1", "nan", "Gr\u00f6\u00dfe", "T[kNm]"]
 SPACE_NAMES = ["Tension [kN]", "x y", "acc [m/s^2]"]          # fine for .ts/.pkl, not for .dat (white space) / .h5 ('/')
-TIME_NAMES = ["time_lag", "Timer", "Time", "timeseries"]      # F19 (.dat) / F19b (.pkl, 'Time' only)
+BRACKET_NAMES = ["p[N/mm2]", "q[1/s]"]                        # '/' inside the unit bracket: fine for .ts/.dat/.pkl, not for .h5
+TIME_NAMES = ["time_lag", "Timer", "Time", "timeseries", "time"]      # F19 (.dat) / F19b (.pkl, 'Time' only)
 
 
 def representable(name, ext):
@@ -908,9 +1213,15 @@ def gen_e2e(rng, corner=None):
         times = [[i * h for i in range(n)] for _ in range(nser)]
         fam = "ident"
     times = [[float(v) for v in t] for t in times]
-    scale = rng.choice([1e-3, 1.0, 1.0, 37.5, 1e4, 1e6])
+    scale = rng.choice([1e-3, 1.0, 1.0, 37.5, 1e4, 1e6, 1.0, 37.5, 2.0 ** 100, 2.0 ** -100, 2.0 ** 200, 2.0 ** -200])
     ext = rng.choice(EXTS + [".pickle"] if rng.random() < 0.1 else EXTS)
-    pool = list(SAFE_NAMES) + (rng.sample(SPACE_NAMES, 2) if rng.random() < 0.3 else [])
+    extreme = not (1e-40 < scale < 1e40)                      # beyond the float32 range: not representable in direct access files
+    if extreme and (ext == ".ts" or source == "ts"):
+        scale = 2.0 ** 100 if scale > 1 else 2.0 ** -100
+        extreme = False
+    pool = list(SAFE_NAMES) + (rng.sample(SPACE_NAMES, 2) if rng.random() < 0.3 else []) + (BRACKET_NAMES if rng.random() < 0.25 else [])
+    if ext != ".dat" and source != "dat" and rng.random() < 0.25:
+        pool += rng.sample(TIME_NAMES, 2)                       # (F19: the ascii reader takes such a column for a second time column)
     pool = [n for n in pool if representable(n, ext)]        # the property's domain: names representable in the target format
     if source in ("ts", "dat", "h5"):
         pool = [n for n in pool if representable(n, "." + source)]      # ... and in the format of the source file
@@ -971,7 +1282,8 @@ def gen_e2e(rng, corner=None):
         kwj["resample"] = ["arr", [cs + (ce - cs) * i / (m - 1) for i in range(m)]]
     if big and rng.random() < 0.7:
         dt = tt[0][1] - tt[0][0]
-        kwj["filterargs"] = rng.choice([["lp", 0.1 / dt], ["hp", 0.05 / dt], ["bp", 0.05 / dt, 0.2 / dt], ["bs", 0.05 / dt, 0.2 / dt], ["tp", 0.5]])
+        kwj["filterargs"] = rng.choice([["lp", 0.1 / dt], ["hp", 0.05 / dt], ["bp", 0.05 / dt, 0.2 / dt], ["bs", 0.05 / dt, 0.2 / dt], ["tp", 0.5],
+                                        ["tp", [-0.5 * scale, 0.8 * scale]]])       # (('tp', a) with a single amplitude raises TypeError)
     if rng.random() < 0.1:
         kwj["taperfrac"] = 0.1
     if rng.random() < 0.08 and min(len(t) for t in tt) >= 8 and "twin" not in kwj and "resample" not in kwj:
@@ -986,6 +1298,98 @@ def gen_e2e(rng, corner=None):
                 history=rng.choice(["read-first", "fresh", "fresh", "partial"]), partial_index=rng.randrange(4))
     if case["target_style"] == "bare":
         case["subdir"] = False               # a bare file name has no directory that could be missing
+    # ---- the same thing spelled differently, boundary values, histories ------------------------------------------------------------
+    sp = {}
+    if "twin" in kwj and rng.random() < 0.5:
+        sp["twin"] = rng.choice(["list", "nd", "int"])
+    if "resample" in kwj:
+        if kwj["resample"][0] == "step" and rng.random() < 0.5:
+            sp["resample"] = rng.choice(["f64", "f32"])
+        elif kwj["resample"][0] == "arr":
+            k = rng.random()
+            if k < 0.25:
+                sp["resample"] = "intarr"
+            elif k < 0.45:
+                kwj["resample"][0] = "list"
+    if "filterargs" in kwj and rng.random() < 0.4:
+        sp["filterargs"] = "list"
+    if rng.random() < 0.15:
+        sp["none"] = rng.sample(["twin", "resample", "filterargs", "taperfrac", "window_len"], rng.randint(1, 3))
+    if rng.random() < 0.15:
+        sp["noop"] = rng.sample(["taper0", "wl1", "wl0", "twin_all", "verbose"], rng.randint(1, 2))
+    if isinstance(select, list) and rng.random() < 0.4:
+        sp["names"] = "tuple"
+    if EXIST_OK_SPELLINGS and rng.random() < 0.1:
+        sp["bool"] = rng.choice(["np", "int"])
+    case["args"] = rng.choice(["kw", "kw", "kw", "kw", "pos", "posall"])
+    if ext == ".dat" and rng.random() < 0.3:
+        case["delim"] = rng.choice([" ", "  ", " \t"])
+    case["target"] = rng.choice(["out"] * 7 + ["out.v1", "o ut", "OUT", "out.ts", "a.dat", "x.h5.y", "res.ts.d/out"])
+    case["target_style"] = rng.choice(["abs", "abs", "abs", "bare", "bare", "rel", "dot", "dotdot"])
+    if case["target_style"] == "bare":
+        case["subdir"] = False
+    if case["preexisting"] and rng.random() < 0.4:
+        case["preexisting"] = "export"       # the target is a larger export written earlier, not a few bytes
+    case["reload_style"] = rng.choice(["same", "same", "same", "abs", "load"])
+    if source == "mem":
+        dt = rng.choice(["f8"] * 6 + ["i8", "f4", "view", "shared"])
+        if extreme and dt == "f4":
+            dt = "f8"
+        if dt != "f8":
+            case["dtype"] = dt
+        if dt == "i8":
+            for s in series:
+                s["x"] = [float(rng.randint(-1000, 1000)) for _ in s["t"]]
+        if set(kwj) <= {"twin"} and not case["force"] and rng.random() < 0.08:
+            case["nonfinite"] = [[rng.randrange(len(series)), rng.randrange(1000), rng.choice(["nan", "inf", "ninf"])]
+                                 for _ in range(rng.randint(1, 2))]
+    if rng.random() < 0.1:
+        # the GUI's entry point qats.app.funcs.export_to_file(filename, db, names, twin, fargs)
+        case["entry"] = "funcs"
+        case.update(force=False, exist_ok=True, basename=False)
+        for k in ("resample", "taperfrac", "window_len"):
+            kwj.pop(k, None)
+        sp.pop("resample", None)
+        sp["none"] = [k for k in sp.get("none", []) if k in ("twin", "filterargs")]
+        sp["noop"] = [z for z in sp.get("noop", []) if z == "twin_all"]
+        sp.pop("bool", None)
+        case.pop("delim", None)
+    case["spell"] = dict((k, v) for k, v in sp.items() if v)
+    if rng.random() < 0.3:
+        # further exports from the same database object
+        okext = [e for e in EXTS if all(representable(s["name"], e) for s in series) and not (extreme and e == ".ts") and
+                 not (e == ".dat" and any(pyfnmatch.fnmatchcase(s["name"], "[Tt]ime*") for s in series))]
+        then = []
+        for _ in range(rng.randint(1, 2)):
+            st = dict(entry="method", delim=None, subdir=False, args=rng.choice(["kw", "pos"]))
+            if rng.random() < 0.35 or not okext:
+                st.update(target=case["target"], ext=ext)                       # the file the first export has (or should have) written
+            else:
+                st.update(target="out2", ext=rng.choice(okext))
+            st["preexisting"] = rng.random() < 0.15
+            st["exist_ok"] = rng.random() < 0.75
+            st["force"] = rng.random() < 0.3
+            st["basename"] = case["basename"] if rng.random() < 0.7 else (not case["basename"])
+            if rng.random() < 0.5:
+                st["kw_same"] = True                                            # the very same option objects again
+            else:
+                kw2 = {}
+                if rng.random() < 0.6:
+                    a, b = gen_twin(rng, tt)
+                    kw2["twin"] = [float(a), float(b)]
+                elif rng.random() < 0.5:
+                    span = (ce - cs) if ce > cs else (tt[0][-1] - tt[0][0])
+                    kw2["resample"] = ["step", float(span / rng.choice([2, 3, 4]))]
+                st.update(kw=kw2, spell={}, kw_same=False)
+            if rng.random() < 0.25:
+                st["select"] = None if select is not None else rng.choice(allnames)
+            if case.get("nonfinite"):
+                # (gaps in the data: no interpolation, so that the reference does not depend on how a library treats nan)
+                st["force"] = False
+                if "resample" in (st.get("kw") or {}) or (st.get("kw_same") and "resample" in kwj):
+                    st.update(kw={}, spell={}, kw_same=False)
+            then.append(st)
+        case["then"] = then
     return case
 
 
@@ -1108,6 +1512,47 @@ def retrieve_each(db, keys, kw):
     return out
 
 
+def within(got, exp, rtol, atol):
+    """elementwise: |got - exp| <= atol + rtol |exp| where exp is finite; where it is not (nan, +-inf) got must be the same"""
+    got, exp = np.asarray(got, dtype=float), np.asarray(exp, dtype=float)
+    with np.errstate(invalid="ignore"):
+        fin = np.isfinite(exp)
+        return np.where(fin, np.abs(got - exp) <= atol + rtol * np.abs(exp), (got == exp) | (np.isnan(got) & np.isnan(exp)))
+
+
+def worst(got, exp, rtol, atol):
+    """index of the first element outside the tolerance"""
+    return int(np.argmin(within(got, exp, rtol, atol)))
+
+
+BIG_N, BIG_K = 64, 5
+
+
+def write_previous_export(target, ext):
+    """a pre-existing target that is a real, larger export (5 series of 64 samples) written by the format's writer"""
+    from qats.io.direct_access import write_ts_data
+    from qats.io.other import write_dat_data
+    from qats.io.sima_h5 import write_data as write_h5
+    t = np.arange(BIG_N) * 0.5
+    recs = OrderedDict(("q%d" % j, (t, np.cos(0.1 * (j + 1) * t) + j)) for j in range(BIG_K))
+    if ext == ".ts":
+        write_ts_data(target, t, recs)
+    elif ext == ".dat":
+        write_dat_data(target, t, recs)
+    elif ext == ".h5":
+        write_h5(target, recs)
+    else:
+        write_pickle(target, list(recs), t, [v[1] for v in recs.values()])
+
+
+def merged_step(case, st):
+    """a follow-up export on the same exporting database: the case with the step's fields replacing the first export's"""
+    d = dict(case)
+    d.pop("then", None)
+    d.update(st)
+    return d
+
+
 def eval_e2e(case, root):
     """returns (failures, info): failures = [(oracle, expected, observed, extra)]"""
     cwd0 = os.getcwd()
@@ -1118,11 +1563,67 @@ def eval_e2e(case, root):
 
 
 def _eval_e2e(case, root):
+    # reference database: nothing is ever stored in it (every retrieval below reads the source again); never used for an export
+    db = build_db(case, root)
+    # the exporting database and what happened to it before: a second database on the same arrays / files, with the selection
+    # retrieved and stored / nothing read / one selected series read and stored
+    dbx = build_db(case, root, write=False)
+    hist = case.get("history", "read-first")
+    if case["source"] != "mem":
+        try:
+            keys0 = list(db.getm(names=case["select"], fullkey=True, store=False).keys())
+            if hist == "read-first":
+                dbx.getda(names=case["select"], fullkey=True, **kw_of(case["kw"]))
+            elif hist == "partial" and keys0:
+                dbx.get(ind=dbx.register_keys.index(keys0[case.get("partial_index", 0) % len(keys0)]))
+        except Exception:
+            pass
+    tdir = os.path.join(root, "tgt")
+    os.makedirs(tdir)
+    shared = {}
+    fails, info = eval_step(db, dbx, case, root, tdir, shared)
+    # histories: further exports from the same exporting database (other format / options / selection, the same or another target,
+    # after an export that was refused or written); every clause is evaluated again for each of them
+    for si, st in enumerate(case.get("then") or []):
+        stc = merged_step(case, st)
+        f2, i2 = eval_step(db, dbx, stc, root, tdir, shared)
+        info.setdefault("then", []).append(i2.get("outcome"))
+        for oracle, expected, observed, extra in f2:
+            fails.append(("[export no. %d from the same database] " % (si + 2) + oracle, expected, observed, dict(extra, step=si + 1)))
+    return fails, info
+
+
+def call_export(dbx, arg, case, select, kw):
+    """TsDB.export as the caller of this case spells the call"""
+    sp = case.get("spell") or {}
+    how = sp.get("bool", "py")
+    exist_ok = spell_bool(case["exist_ok"], how)
+    basename = spell_bool(case["basename"], how)
+    force = case["force"] if how == "py" else spell_bool(case["force"], how)
+    if case.get("entry") == "funcs":
+        # the GUI's entry point: export(filename, names=names, exist_ok=True, basename=False, twin=twin, filterargs=fargs)
+        from qats.app.funcs import export_to_file
+        return quiet(export_to_file, arg, dbx, select, kw.get("twin"), kw.get("filterargs"))
+    delim = case.get("delim") or "\t"
+    verbose = "verbose" in (sp.get("noop") or [])
+    style = case.get("args", "kw")
+    if style == "posall":
+        return quiet(dbx.export, arg, select, delim, False, exist_ok, basename, verbose, force, **kw)
+    flags = dict(exist_ok=exist_ok, basename=basename, force_common_time=force)
+    if case.get("delim"):
+        flags["delim"] = delim
+    if verbose:
+        flags["verbose"] = True
+    if style == "pos":
+        return quiet(dbx.export, arg, select, **flags, **kw)
+    return quiet(dbx.export, arg, names=select, **flags, **kw)
+
+
+def eval_step(db, dbx, case, root, tdir, shared):
+    """one export from `dbx` and its reload, compared with retrievals from the reference database `db`"""
     from qats import TsDB
     fails, info = [], {}
     ext = case["ext"]
-    # reference database: nothing is ever stored in it (every retrieval below reads the source again)
-    db = build_db(case, root)
     select = case["select"]
     kw = kw_of(case["kw"])
     sel = db.getm(names=select, fullkey=True, store=False)
@@ -1177,30 +1678,50 @@ def _eval_e2e(case, root):
                               "format's precision)", dict(series=n, t=te.tolist()[:6], x=xe.tolist()[:6]),
                               dict(series=n, t=tg.tolist()[:6], x=xg.tolist()[:6]), dict(series=n)))
                 break
+    # a reference that does not go through the library at all: an in-memory series, no option but (possibly) a window -> the samples
+    # of the arrays the series was built from that lie inside the window
+    direct = None
+    if case["source"] == "mem" and set(case["kw"]) <= {"twin"}:
+        arrs = mem_arrays(case)
+        direct = OrderedDict()
+        for k in keys:
+            t0, x0 = arrs[[id(s) for s in case["series"]].index(id(ser_by_key[k]))]
+            if "twin" in kw:
+                m = (t0 >= kw["twin"][0]) & (t0 <= kw["twin"][1])
+                t0, x0 = t0[m], x0[m]
+            direct[k] = (t0, x0)
     # target
-    tdir = os.path.join(root, "tgt")
-    os.makedirs(tdir)
     sub = os.path.join(tdir, "newdir") if case["subdir"] else tdir
     target = os.path.join(sub, case.get("target", "out") + ext)
-    if case["preexisting"]:
+    pre = case["preexisting"]
+    if pre and not os.path.exists(target):          # (a later export may meet the file an earlier one has written)
         os.makedirs(os.path.dirname(target), exist_ok=True)
-        with open(target, "wb") as f:
-            f.write(b"SENTINEL-" + ext.encode())
-        if ext == ".ts":
-            with open(os.path.splitext(target)[0] + ".key", "w") as f:
-                f.write("sentinel\nEND\n")
+        if pre == "export" and ext in EXTS + [".pickle"]:
+            write_previous_export(target, ext)
+        else:
+            with open(target, "wb") as f:
+                f.write(b"SENTINEL-" + ext.encode())
+            if ext == ".ts":
+                with open(os.path.splitext(target)[0] + ".key", "w") as f:
+                    f.write("sentinel\nEND\n")
+    existed = os.path.isfile(target)
     # how the target is named in the call: absolute path, bare file name in the working directory, relative path with a directory
+    # (plain, with a leading './', through '..')
     style = case.get("target_style", "abs")
-    if style == "bare" and case["subdir"]:
+    if style == "bare" and (case["subdir"] or "/" in case.get("target", "out")):
         style = "rel"
     arg = target
     if style == "bare":
         os.makedirs(os.path.dirname(target), exist_ok=True)
         os.chdir(os.path.dirname(target))
         arg = os.path.basename(target)
-    elif style == "rel":
+    elif style in ("rel", "dot", "dotdot"):
         os.chdir(root)
         arg = os.path.relpath(target, root)
+        if style == "dot":
+            arg = "./" + arg
+        elif style == "dotdot":
+            arg = os.path.join("..", os.path.basename(root), arg)
     info["target_arg"] = arg
     # what should be written: the in-memory retrievals if their time arrays agree; with force_common_time (and no resampling
     # requested) otherwise the retrievals resampled to the common time array
@@ -1210,7 +1731,7 @@ def _eval_e2e(case, root):
         same = all(a.shape == ts_[0].shape and np.allclose(a, ts_[0], rtol=1e-9, atol=1e-12) for a in ts_)
     else:
         same = False
-    if not same and case["force"] and "resample" not in kw:
+    if not same and case["force"] and "resample" not in kw and case.get("entry") != "funcs":
         try:
             ct = db.create_common_time(names=select, twin=kw.get("twin"))
             kw2 = dict(kw)
@@ -1221,21 +1742,18 @@ def _eval_e2e(case, root):
             pass
     nproc = None if exp is None else min(len(v[0]) for v in exp.values())
     xtra = dict(processed_samples=nproc)
-    # the exporting database and what happened to it before: in memory -> the reference database itself; file-backed -> a second
-    # database on the same files, with the selection retrieved and stored / nothing read / one selected series read and stored
-    dbx, hist = db, case.get("history", "read-first")
-    if case["source"] != "mem":
-        dbx = build_db(case, root, write=False)
-        try:
-            if hist == "read-first":
-                dbx.getda(names=select, fullkey=True, **kw)
-            elif hist == "partial":
-                dbx.get(ind=dbx.register_keys.index(keys[case.get("partial_index", 0) % len(keys)]))
-        except Exception:
-            pass
+    # the call as this case spells it (the same option objects again when a later export says so)
+    sp = case.get("spell") or {}
+    if case.get("kw_same") and "kw_objs" in shared:
+        kwx = shared["kw_objs"]
+    else:
+        tt_all = [s["t"] for s in case["series"]]
+        kwx = kw_spelled(case, span=(min(t[0] for t in tt_all), max(t[-1] for t in tt_all)))
+        shared.setdefault("kw_objs", kwx)            # (the option objects of the first export)
+    selx = tuple(select) if (isinstance(select, list) and sp.get("names") == "tuple") else select
     before = snapshot(tdir)
     try:
-        quiet(dbx.export, arg, names=select, exist_ok=case["exist_ok"], basename=case["basename"], force_common_time=case["force"], **kw)
+        call_export(dbx, arg, case, selx, kwx)
         raised = None
     except Exception as e:
         raised = e
@@ -1243,21 +1761,27 @@ def _eval_e2e(case, root):
     changed = sorted(set(k for k in set(before) | set(after) if before.get(k) != after.get(k)))
     info["written_names"] = exp_names
     if raised is not None:
+        info["raised"] = "%s: %s" % (type(raised).__name__, str(raised)[:100])
+    # what the call asks for (the GUI's entry point always allows overwriting and never forces)
+    exist_ok = True if case.get("entry") == "funcs" else bool(case["exist_ok"])
+    basename = False if case.get("entry") == "funcs" else bool(case["basename"])
+    if raised is not None:
         info["outcome"] = "raise:" + type(raised).__name__
         if after != before:
             fails.append(("an export that raises leaves the target (and every other file) untouched", "no file created or modified",
                           dict(raised="%s: %s" % (type(raised).__name__, str(raised)[:120]), changed=changed), xtra))
         # exports that must not be refused: identical stored time arrays, valid options, distinct names, overwriting allowed
-        must = ident and exp_err is None and (case["exist_ok"] or not case["preexisting"]) and ext in EXTS + [".pickle"] and \
+        must = ident and exp_err is None and exp0 is not None and (exist_ok or not existed) and ext in EXTS + [".pickle"] and \
             (len(set(exp_names)) == len(exp_names)) and all(len(v[0]) >= 2 for v in exp0.values())
         if must:
             fails.append(("series with identical time arrays and valid options are exported", "file written",
                           "%s: %s" % (type(raised).__name__, str(raised)[:160]), xtra))
         return fails, info
     info["outcome"] = "written"
-    if case["preexisting"] and not case["exist_ok"]:
+    if existed and not exist_ok:
         fails.append(("an existing file is not overwritten when exist_ok=False", "FileExistsError, target untouched",
-                      dict(outcome="export returned", target_argument=arg, files_changed=changed), xtra))
+                      dict(outcome="export returned", target_argument=arg, files_changed=changed,
+                           exist_ok=repr(spell_bool(case["exist_ok"], sp.get("bool", "py")))), xtra))
         return fails, info
     if exp is None or not same:
         fails.append(("series whose processed time arrays differ are never written side by side", "export raises",
@@ -1265,9 +1789,14 @@ def _eval_e2e(case, root):
                            retrieval_error=None if exp_err is None else repr(exp_err)[:160]), xtra))
         return fails, info
     info["forced"] = forced
-    # reload (the file is named as it was in the export call)
+    # reload (the file is named as it was in the export call, or by its absolute path, or in a list handed to `load`)
     try:
-        db2 = TsDB.fromfile(arg)
+        rs = case.get("reload_style", "same")
+        if rs == "load":
+            db2 = TsDB()
+            quiet(db2.load, [arg])
+        else:
+            db2 = quiet(TsDB.fromfile, os.path.abspath(arg) if rs == "abs" else arg)
         keys2 = list(db2.register_keys)
         got_names = [k[len(os.path.abspath(arg)) + 1:] for k in keys2]
         da = db2.getda(ind=list(range(len(keys2))), fullkey=True, store=False)
@@ -1276,7 +1805,7 @@ def _eval_e2e(case, root):
         fails.append(("the written file can be loaded again", "names, time and data", "%s: %s" % (type(e).__name__, str(e)[:160]), xtra))
         return fails, info
     # names
-    if case["basename"] or len(keys) == 1:
+    if basename or len(keys) == 1:
         want = list(exp_names)
         okn = sorted(got_names) == sorted(want)         # (the order of the records is not part of the property; h5 sorts them)
         if not okn:
@@ -1297,7 +1826,7 @@ def _eval_e2e(case, root):
             order = []
             for (k, (te, xe)), n in zip(exp.items(), exp_names):
                 cands = [i for i, g in enumerate(got_names) if (g == n or g.endswith("_" + n)) and i not in order and len(got[i][1]) == len(xe)
-                         and np.array_equal(got[i][1], xe)]
+                         and np.array_equal(got[i][1], xe, equal_nan=True)]
                 if not cands:
                     fails.append(("with basename=False every series is written under a distinct shortened key ending in its name", exp_names, got_names, xtra))
                     return fails, info
@@ -1305,20 +1834,46 @@ def _eval_e2e(case, root):
         else:
             order = list(range(len(keys)))
     # arrays
+    fmt = ext if ext != ".pickle" else ".pkl"
     for (k, (te, xe)), i, n in zip(exp.items(), order, exp_names):
         tg, xg = got[i]
-        rt, at, rx, ax = tolerances(ext if ext != ".pickle" else ".pkl", te, xe)
+        rt, at, rx, ax = tolerances(fmt, te, xe)
         if len(tg) != len(te) or len(xg) != len(xe):
             fails.append(("reloaded arrays have the length of the processed arrays", [len(te), len(xe)], [len(tg), len(xg)], dict(series=n, **xtra)))
             continue
+        # .ts / .dat / .pkl hold ONE time column: that of the first series, to which export compares the others with
+        # |t - t0| <= 1e-12 + 1e-9 |t0|. So: the format's precision against the first series' processed time, and that plus export's
+        # closeness against the series' own (h5 stores start and step per series: its own time at the format's precision)
+        te0 = list(exp.values())[0][0]
         if ext == ".h5" and not is_uniform(te):
             info["h5_nonuniform"] = True
-        elif not np.all(np.abs(tg - te) <= at + rt * np.abs(te)):
+        elif ext != ".h5" and len(te0) == len(tg) and not np.all(np.abs(tg - te0) <= at + rt * np.abs(te0)):
+            j = int(np.argmax(np.abs(tg - te0) - (at + rt * np.abs(te0))))
+            fails.append(("reloaded time equals the processed time within the format's precision", float(te0[j]), float(tg[j]), dict(series=n, index=j, **xtra)))
+        elif not np.all(np.abs(tg - te) <= at + rt * np.abs(te) + (0.0 if ext == ".h5" else 1e-12 + 1e-9 * np.abs(te))):
             j = int(np.argmax(np.abs(tg - te) - (at + rt * np.abs(te))))
             fails.append(("reloaded time equals the processed time within the format's precision", float(te[j]), float(tg[j]), dict(series=n, index=j, **xtra)))
-        if not np.all(np.abs(xg - xe) <= ax + rx * np.abs(xe)):
-            j = int(np.argmax(np.abs(xg - xe) - (ax + rx * np.abs(xe))))
+        if not np.all(within(xg, xe, rx, ax)):
+            j = worst(xg, xe, rx, ax)
             fails.append(("reloaded data equal the processed data within the format's precision", float(xe[j]), float(xg[j]), dict(series=n, index=j, **xtra)))
+        # the window, read directly off the file: no reloaded sample lies outside a window that was asked for
+        rsm = case["kw"].get("resample")
+        if "twin" in kw and len(tg) and not (ext == ".h5" and not is_uniform(te)) and (rsm is None or rsm[0] == "step"):
+            a, b = kw["twin"]
+            slack = at + rt * max(abs(a), abs(b), float(np.max(np.abs(tg))))
+            if tg[0] < a - slack or tg[-1] > b + slack or np.any(tg < a - slack) or np.any(tg > b + slack):
+                fails.append(("a windowed export holds no sample outside the window", [float(a), float(b)], [float(np.min(tg)), float(np.max(tg))],
+                              dict(series=n, **xtra)))
+        # ... and the stored samples themselves (in-memory source, no option but the window): not through any retrieval
+        if direct is not None and not forced:
+            t0, x0 = direct[k]
+            rt0, at0, rx0, ax0 = tolerances(fmt, t0, x0)
+            okd = len(tg) == len(t0) and len(xg) == len(x0) and (bool(np.all(np.abs(tg - t0) <= at0 + rt0 * np.abs(t0) + (0.0 if ext == ".h5" else 1e-12 + 1e-9 * np.abs(t0)))) or
+                                                                   (ext == ".h5" and not is_uniform(t0))) and bool(np.all(within(xg, x0, rx0, ax0)))
+            if not okd:
+                fails.append(("without options other than a window the reloaded file holds the samples the series was built from (inside the "
+                              "window), at the format's precision", dict(series=n, t=t0.tolist()[:6], x=x0.tolist()[:6]),
+                              dict(series=n, t=tg.tolist()[:6], x=xg.tolist()[:6]), dict(series=n, **xtra)))
     # forced resampling: independent reading of "resampled to the common window"
     if forced:
         sel = OrderedDict((k, db.get(ind=db.register_keys.index(k), store=False)) for k in keys)     # each series read on its own
@@ -1333,7 +1888,7 @@ def _eval_e2e(case, root):
                 ref = np.interp(exp[k][0], sel[k].t, sel[k].x)
                 if len(got[i][1]) != len(ref):
                     continue                    # (length mismatch is reported above)
-                rt, at, rx, ax = tolerances(ext if ext != ".pickle" else ".pkl", exp[k][0], ref)
+                rt, at, rx, ax = tolerances(fmt, exp[k][0], ref)
                 sc = max(1.0, float(np.max(np.abs(sel[k].x))))
                 if not np.all(np.abs(got[i][1] - ref) <= 1e-9 * sc + ax + max(rx, 1e-12) * np.abs(ref) + 2e-7 * sc * (ext in (".ts", ".dat"))):
                     fails.append(("forced resampling writes the linear interpolation of each series on the common time", "np.interp",
@@ -1365,6 +1920,16 @@ def f30_shape(f):
     return isinstance(inp, dict) and inp.get("kind") == "e2e" and n is not None and n < 2
 
 
+def fxok_shape(f):
+    """exist_ok spelled as 0 / numpy.bool_(False) and the existing target was overwritten"""
+    inp = f.get("input") or {}
+    if not isinstance(inp, dict) or inp.get("kind") != "e2e":
+        return False
+    spells = [(inp.get("spell") or {}).get("bool")] + [(st.get("spell") or {}).get("bool") for st in inp.get("then") or []]
+    return "is not overwritten when exist_ok=False" in f.get("oracle", "") and any(b in ("np", "int") for b in spells) and \
+        isinstance(f.get("observed"), dict) and f["observed"].get("exist_ok") in ("0", "False", "np.False_", "numpy.False_")
+
+
 def f31_shape(f):
     inp = f.get("input") or {}
     return isinstance(inp, dict) and inp.get("kind") == "e2e" and inp.get("ext") == ".ts" and ".ts" in str(inp.get("target", "")) and \
@@ -1383,9 +1948,19 @@ def run_e2e(chk, case):
     try:
         try:
             fails, info = eval_e2e(case, root)
-        except KeyError:
+        except BuildRefused:
             # building the database itself can refuse (same key twice in memory)
             chk.dist("e2e:build-refused")
+            return
+        except Exception as e:
+            # an exception raised by the implementation outside `export` / the reload (writing the source files, loading them,
+            # selecting the series of the reference) is a failing clause, never a crash of the check
+            chk.count("roundtrip")
+            chk.dist("e2e:%s %s exception outside export" % (case.get("ext"), case.get("source")))
+            tb = [ln.strip() for ln in traceback.format_exc().strip().splitlines() if ln.strip().startswith("File")][-2:]
+            chk.fail("the database of the case can be built, selected from and retrieved from (an exception raised by the implementation "
+                     "while the case is evaluated is a failing clause)", case, "no exception",
+                     "%s: %s" % (type(e).__name__, str(e)[:200]), where=tb)
             return
         chk.count("roundtrip")
         ext = case["ext"]
@@ -1394,6 +1969,21 @@ def run_e2e(chk, case):
             chk.dist("e2e:forced-resampling written")
         if info.get("h5_nonuniform"):
             chk.dist("e2e:h5 non-uniform time (outside the property: not compared)")
+        if case.get("then"):
+            chk.count("roundtrip-later-export", len(case["then"]))
+            for o in info.get("then", []):
+                chk.dist("e2e:later export from the same database %s" % o)
+        for lab, val in (("dtype", case.get("dtype")), ("entry", case.get("entry")), ("args", case.get("args")),
+                         ("preexisting", case.get("preexisting") if case.get("preexisting") == "export" else None),
+                         ("target_style", case.get("target_style") if case.get("target_style") in ("dot", "dotdot") else None),
+                         ("reload", case.get("reload_style") if case.get("reload_style") in ("abs", "load") else None),
+                         ("nonfinite", "yes" if case.get("nonfinite") else None), ("delim", repr(case["delim"]) if case.get("delim") else None),
+                         ("then", "%d more" % len(case["then"]) if case.get("then") else None)):
+            if val not in (None, "f8", "method", "kw"):
+                chk.dist("e2e-class:%s=%s" % (lab, val))
+        for k, v in (case.get("spell") or {}).items():
+            for w in (v if isinstance(v, list) else [v]):
+                chk.dist("e2e-class:spelling %s=%s" % (k, w))
         if len(case["series"]) > 1 or case["kw"] or case["force"]:
             chk.nontriv(("e2e", json.dumps(case, sort_keys=True)))
         for oracle, expected, observed, extra in fails:
@@ -1421,6 +2011,7 @@ def run(chk):
         "roundtrip_h5: the time array is reproduced only for uniformly sampled series (start + i*delta)"]
     chk.matchers[F19] = f19_shape
     chk.matchers[F30] = f30_shape
+    chk.matchers[FXOK] = fxok_shape
     rng = chk.rng
     drv = core.Driver()
     root = tempfile.mkdtemp(prefix="qv07c_")
@@ -1434,11 +2025,12 @@ def run(chk):
         corr_names(chk, drv, rng, 1200 if q else 24000)
         corr_export(chk, drv, rng, 900 if q else 18000, root)
         corr_codec(chk, drv, rng, 150 if q else 2400, root)
+        corr_rows_pkl(chk, drv, rng, 250 if q else 3000, root)
     finally:
         shutil.rmtree(root, ignore_errors=True)
     for c in corner_cases():
         run_e2e(chk, c)
-    for _ in range(1500 if chk.quick else 18000):
+    for _ in range(1300 if chk.quick else 12000):
         run_e2e(chk, gen_e2e(rng))
 
 
@@ -1448,11 +2040,44 @@ def replay(rp):
     root = tempfile.mkdtemp(prefix="qv07r_")
     try:
         if kind == "e2e":
-            fails, info = eval_e2e(inp, root)
+            try:
+                fails, info = eval_e2e(inp, root)
+            except Exception as e:
+                fails, info = [("the database of the case can be built, selected from and retrieved from", "no exception",
+                                "%s: %s" % (type(e).__name__, str(e)[:200]), {})], dict(outcome="exception outside export")
             print("case: %d series from %s -> %s, options %s, basename=%s force=%s" % (len(inp["series"]), inp["source"], inp["ext"], inp["kw"],
                                                                                    inp["basename"], inp["force"]))
-            print("outcome:", info.get("outcome"))
+            print("outcome:", info.get("outcome"), "" if not inp.get("then") else "| later exports from the same database: %s" % info.get("then"))
+            for k in ("spell", "entry", "args", "dtype", "nonfinite", "delim", "target", "target_style", "reload_style", "preexisting"):
+                if inp.get(k) not in (None, {}, False, "out", "abs", "same", "kw", "method"):
+                    print("   %s: %s" % (k, inp[k]))
             fails = [(o, e, ob) for o, e, ob, _ in fails]
+        elif kind == "rows":
+            rows, allc, firstm, fails = eval_rows(inp, root)
+            print("write_dat_data / read_dat_data on %d rows x %d columns (delimiter %r), first %d columns by index" % (
+                len(inp["t"]), len(inp["cols"]) + 1, inp.get("delim", "\t"), inp["m"]))
+        elif kind == "pkl":
+            gn, gd, fails = eval_pkl(inp, root)
+            print("pickle_format.write_data / read_pickle_names / read_data on names %s" % inp["names"])
+        elif kind == "codec" and inp.get("codec") == "exception":
+            from qats.io.direct_access import write_ts_data, read_ts_names, read_ts_data
+            from qats.io.other import write_dat_data, read_dat_names
+            from qats.io.sima_h5 import write_data as write_h5, read_names as read_h5_names, read_data as read_h5_data
+            t = np.arange(3.0)
+            recs = OrderedDict((nm, (t, t + i)) for i, nm in enumerate(inp["names"]))
+            fails = []
+            for lab, fn in [(".ts", lambda: (write_ts_data(os.path.join(root, "c.ts"), t, recs), read_ts_names(os.path.join(root, "c.key")),
+                                             read_ts_data(os.path.join(root, "c.ts")))),
+                            (".dat", lambda: (write_dat_data(os.path.join(root, "c.dat"), t, recs, delim=inp.get("delim", "\t")),
+                                              read_dat_names(os.path.join(root, "c.dat")))),
+                            (".h5", lambda: (write_h5(os.path.join(root, "c.h5"), recs), read_h5_data(os.path.join(root, "c.h5"),
+                                                                                                       names=read_h5_names(os.path.join(root, "c.h5")))))]:
+                try:
+                    fn()
+                except Exception as e:
+                    fails.append(("the writers and readers of the four formats accept representable names", "no exception",
+                                  "%s: %s: %s" % (lab, type(e).__name__, str(e)[:160])))
+            print("writers / readers of .ts, .dat, .h5 on names %s" % inp["names"])
         elif kind == "check":
             ic, fails = clause_is_common(inp)
             print("is_common_time(twin=%s) on %s -> %s" % (inp["twin"], inp["times"], ic))
